@@ -139,6 +139,26 @@ def c18(cfg):
     mode = cfg.get("mode", "plain")
     if mode == "plain":
         tables = _factor_table(cfg)
+    elif mode == "commuting":
+        # A Hermitian product that is NOT of the form X^dagger X: A_n = a_n * 1 (real scalar multiples of the identity, one block
+        # structure), B_n Hermitian.  Every A_k B_m is Hermitian, hence so is the product; declaring it must not change any value.
+        nb = len(dims[0])
+        assert dims[0] == dims[1] == dims[2] and nf == 2
+        A, B = {}, {}
+        for o in bd.orders_upto(npar, cfg["factor_order"]):
+            tag = "".join(map(str, o))
+            for i in range(nb):
+                for j in range(nb):
+                    if i == j:
+                        A[(i, i, *o)] = symc.eye(dims[0][i]) * symc.SymC(symc.real(f"a_{tag}"))
+                        B[(i, i, *o)] = symc.hermitian(f"b{i}{i}_{tag}_", dims[0][i])
+                    else:
+                        A[(i, j, *o)] = "Z"
+                        if i < j:
+                            M = symc.general(f"b{i}{j}_{tag}_", dims[0][i], dims[0][j])
+                            B[(i, j, *o)] = M
+                            B[(j, i, *o)] = symc.dagger(M)
+        tables = [A, B]
     else:
         # X^dagger X  or  X^dagger B X  (B Hermitian): tables derived from X (and B)
         xpat = {}
@@ -405,6 +425,9 @@ def configs(tier, seed):
         add(blockdims=[[1, 1], [2, 1], [2, 1], [1, 1]], mode="XdBX", schedule=sched)
         add(blockdims=[[1, 1], [1, 1], [1, 1]], mode="XdX", nparams=2, schedule=sched)
         add(blockdims=[[1, 1], [1, 1], [1, 1], [1, 1]], mode="XdBX", nparams=2, schedule=sched)
+    # a Hermitian product whose second factor is not the adjoint of the first
+    add(blockdims=[[1, 2], [1, 2], [1, 2]], mode="commuting", request_order=2, factor_order=2)
+    add(blockdims=[[2], [2], [2]], mode="commuting", request_order=2, factor_order=2)
     for sched in ("asc", "desc", "rand1"):
         add(blockdims=[[1, 2], [1, 2], [1, 2]], mode="XdX", schedule=sched, x_unit_zeroth=True)
         add(blockdims=[[1, 1], [1, 1], [1, 1]], mode="XdX", nparams=2, schedule=sched, x_unit_zeroth=True)
